@@ -11,6 +11,7 @@ import Proofs.PausedHistory
 import Proofs.UnifiedPaused
 import Proofs.UnifiedPausedNFT
 import Proofs.UnifiedPausedMulti
+import Proofs.UnifiedFrozenMulti
 namespace C04
 open Esdt
 
@@ -203,17 +204,21 @@ theorem frozenAt_iff (A : Accts) (a tok : Bytes) : FrozenAt A a tok ↔ Frozen A
 
 /-! ### the mixed world (Proofs/UnifiedFrozen.lean): ESDTTransfer traffic and the 20 non-transfer functions -/
 
-/-- FULL for the fungible transfer function and all 20 non-transfer functions (histories; any number of shards; any
-    interleaving): while `a` is frozen for `tok` on shard `i` and holds `v`, no history of ESDTTransfer user transactions,
-    deliveries, refusals and refunds — of any token, between any accounts, `a` included as sender or receiver — mixed with
-    calls of the 20 other functions by anybody on any shard moves that balance or lifts the freeze; excluded are exactly
-    the steps the property names: a wipe / unfreeze of (a, tok), a refund addressed to `a` for `tok`, calls flagged
-    return-after-error (the protocol's own flag), and — as everywhere — token identifiers that alias (`LocalFzOK.noAlias`).
-    ESDTNFTTransfer / MultiESDTNFTTransfer steps are not part of this history theorem (per call: the theorems above). -/
+/-- FULL, frozen half, ALL 23 functions (histories; any number of shards; any interleaving): while `a` is frozen for the
+    fungible token `tok` on shard `i` and holds `v`, no history of ESDTTransfer, ESDTNFTTransfer and MultiESDTNFTTransfer
+    user transactions, deliveries, refusals and refunds — of any tokens, any number of repeated / mixed items, between any
+    accounts, `a` included as sender or receiver — mixed with calls of the 20 other functions by anybody on any shard moves
+    that balance or lifts the freeze; excluded are exactly the steps the property names — a wipe / unfreeze of (a, tok), a
+    flagged refund of `tok`, calls flagged return-after-error — and, as everywhere, token identifiers that alias
+    (`NoAliasTok` / `NoAliasArgs`; on the SENDER side of an NFT / multi transfer also `FungOnly`: no item names the
+    fungible `tok` with a non-zero nonce — an entry whose metadata carries nonce 0 would otherwise be saved under the
+    fungible key, the legacy layout the existing tests rely on). Proofs/UnifiedFrozen.lean, UnifiedFrozenMulti.lean: the
+    gate of every credit looks at the entry the account HOLDS (`spec_addNFTToDestination`, `spec_addToESDTBalance`), a
+    fungible item of a multi transfer writes the entry it read (`fzn_transferOne_tok`), loops by induction. -/
 theorem frozen_balance_in_mixed_world (a tok : Bytes) (v : Int) (e : Env) (i : Nat) (hsc : a ≠ esdtSCAddress)
     (hsys : a ≠ systemAccountAddress) (steps : List UStep) (w : UWorld) (hI : UInv e w) (hok : UStepsOK e steps w)
-    (hfz : UFzStepsOK e a tok steps w) (hF : FzW a tok v i w) : FzW a tok v i (urun e steps w).1 :=
-  unified_fz_history e i hsc hsys steps w hI hok hfz hF
+    (hfz : UFzStepsOK2 e a tok steps w) (hF : FzW a tok v i w) : FzW a tok v i (urun e steps w).1 :=
+  unified_fz_history2 e i hsc hsys steps w hI hok hfz hF
 
 /-! non-vacuity: one shard; alice frozen with 5; bob mints 9, tries to send 4 to alice (refused: the world is unchanged),
     sends 3 to carol, the system contract pauses and un-pauses another token: alice still holds 5, frozen -/
@@ -285,7 +290,8 @@ example : UStepsOK fzEnv fzSteps fzW0 := by
     simp only [fzMint, fzPause, List.mem_cons, List.mem_nil_iff, or_false] at ha
     rcases ha with rfl | rfl <;> decide
 
-example : UFzStepsOK fzEnv fzAlice fzTok fzSteps fzW0 :=
+example : UFzStepsOK2 fzEnv fzAlice fzTok fzSteps fzW0 :=
+  show UFzStepsOK fzEnv fzAlice fzTok fzSteps fzW0 from
   ⟨⟨rfl, fun h => (by rcases h with h | h <;> cases h), fun h => (by rcases h with h | h | h <;> cases h)⟩,
    rfl, rfl,
    ⟨rfl, fun h => (by rcases h with h | h <;> cases h), fun h => (by rcases h with h | h | h <;> cases h)⟩, trivial⟩
@@ -362,10 +368,8 @@ example : UPzStepsOK3 fzEnv fzTok fzSteps pzW0 := by
   · intro t0 h0; simp [fzPause] at h0; subst h0; exact noAlias_88
   · simp [fzPause] at h0; subst h0; decide
 
--- PARTIAL (stated): the history-level clause of the FROZEN half for the NFT / multi transfer functions (the PAUSE half is FULL above) ("for all histories interleaving the
--- toggles with every balance-changing function") is the composition of the per-call theorems above; the whole
--- multi-transfer loops and the destination side of a multi transfer are covered item-wise (`paused_blocks_multi_item`,
--- `spec_addNFTToDestination`, `spec_addToESDTBalance` carry the gate). The C04 oracle (no entry of a frozen account / paused
--- token changes under a non-exempt op) and full-diff correspondence in the `gates` profile decide them on the implementation.
+-- Both halves are FULL over histories of all 23 functions (above). What stays with the C04 oracle and the correspondence
+-- check: steps outside `UStepOK` (forged destination-form calls, the system account as an ordinary account) and aliasing
+-- token identifiers (the adversarial profile).
 
 end C04
